@@ -168,9 +168,10 @@ def obligations(tier, rng):
     nest2 = [o(i(X)) for o in un1 for i in un1]
     nest2 += [('and', o(X), i(X)) for o in un1[2:6] for i in un1[2:6] if o is not i] + [('since', o(X), ('not', X)) for o in un1[2:6]]
     if quick:
-        nest2 = rng.sample(nest2, 10)
+        keep = [f for f in nest2 if f[0] == 'since']          # stateful binary operator fed by operators that re-emit boundary samples
+        nest2 = keep + rng.sample([f for f in nest2 if f[0] != 'since'], 10)
     for f in nest2:
-        for sched in (schedules([3]) if not quick else schedules([3])[1:3]):
+        for sched in (schedules([3]) if (not quick or f[0] == 'since') else schedules([3])[1:3]):
             out.append(ob('C05', 'chunk', 'F2x/%s/n=3/%s' % (text(f), _sname(sched)), f=f, ns=[3], sched=sched, oracle='offline',
                           max_paths=40000, wall=900))
     # pastified bounded-future specifications: output shifted by the horizon
